@@ -76,6 +76,38 @@ def check_orduse(crate, rep, cfg):
     ok = any(x.endswith("::insert") for x in bt) and any(x.endswith("::contains") for x in bt)
     rep.add("C16.ORDUSE", "C16.ORDUSE:unique:btreeset", ok, uq.where(0), "unique dedups through BTreeSet<Value>::contains/insert (equality classes of Ord::cmp == classes of `==`, C15.ORD)"
             + ("" if ok else " — VIOLATED: %s" % bt))
+    # join / split are the standard library's inverse pair: where separators go is decided by `[String]::join` and `str::split`, with
+    # the separator taken from the keyword argument, over every element in order (no hand-written separator logic to get wrong)
+    from engine import kwarg_locals
+    jb = crate.one("filters::join")
+    jtr = Tracer(jb)
+    oks = list(find_aggs(jb, "std::result::Result", "Ok"))
+    jcalls = [(bb, t) for bb, t in jb.calls() if callee_def(t).endswith("slice::<impl [T]>::join")]
+    ok = len(oks) == 1 and len(jcalls) == 1
+    if ok:
+        ok = all(l.kind == "call" and l.detail[2] == jcalls[0][0] for l in jtr.operand(oks[0][2]["rv"]["ops"][0]))
+        seps = kwarg_locals(jb, "sep", named_only=False)
+        sa = jcalls[0][1]["args"][1]
+        ok = ok and sa["k"] in ("copy", "move") and sa["pl"]["l"] in seps
+        # the joined strings come from iterating the input slice itself (every element, in order): iter -> map -> collect only
+        adapters = {callee_def(t).rsplit("::", 1)[-1] for bb, t in jb.calls() if callee_def(t).startswith("std::iter::Iterator::")}
+        ok = ok and adapters <= {"map", "collect"}
+    rep.add("C16.ORDUSE", "C16.ORDUSE:join:std-join-with-sep", ok, jb.where(0), "filters::join returns `[String]::join(sep)` over map(Display) of every element, sep being the "
+            "`sep` keyword argument" + ("" if ok else " — VIOLATED: separator placement is no longer delegated to the standard library (split then join may not give the input back)"))
+    sb_ = crate.one("filters::split")
+    scalls = [(bb, t) for bb, t in sb_.calls() if callee_def(t).endswith("str::<impl str>::split")]
+    ok = len(scalls) == 1
+    if ok:
+        str_ = Tracer(sb_)
+        recv = str_.operand(scalls[0][1]["args"][0])
+        ok = bool(recv) and all(l.kind == "param" and l.detail == 1 for l in recv)
+        pats = kwarg_locals(sb_, "pat", named_only=False)
+        pa = scalls[0][1]["args"][1]
+        ok = ok and pa["k"] in ("copy", "move") and pa["pl"]["l"] in pats
+        adapters = {callee_def(t).rsplit("::", 1)[-1] for bb, t in sb_.calls() if callee_def(t).startswith("std::iter::Iterator::")}
+        ok = ok and adapters <= {"map", "collect"}
+    rep.add("C16.ORDUSE", "C16.ORDUSE:split:std-split-with-pat", ok, sb_.where(0), "filters::split returns every piece of `str::split(pat)` on its input, pat being the `pat` keyword "
+            "argument (no piece filtered out)" + ("" if ok else " — VIOLATED"))
     for name, want in (("first", "first"), ("last", "last"), ("nth", "get")):
         b = crate.one("filters::" + name)
         ok = any(callee_def(t).endswith("::" + want) for bb, t in b.calls()) and not any(callee_def(t) == "std::ops::Index::index" for bb, t in b.calls())
